@@ -78,7 +78,11 @@ RECURSIVE MaxEnd(_, _)
 MaxEnd(f, k) == IF k = 0 THEN TableEnd(f)
                 ELSE LET m == MaxEnd(f, k - 1) IN
                      IF IsLive(f.table[k]) /\ EndOf(f.table[k]) > m THEN EndOf(f.table[k]) ELSE m
-FreeBeyondLive(f) == \A i \in FreeSlots(f) : f.table[i].offset >= MaxEnd(f, f.n)
+\* the explored family: every unused slot points at or beyond the end of the live data - except
+\* that a spare one (not the first unused slot) may still carry the end of the table
+FreeBeyondLive(f) == \A i \in FreeSlots(f) :
+                        \/ f.table[i].offset >= MaxEnd(f, f.n)
+                        \/ f.table[i].offset = TableEnd(f) /\ \E j \in FreeSlots(f) : j < i
 
 -----------------------------------------------------------------------------
 (* What the three mutations do to a file that accepts them.  Written in    *)
